@@ -61,6 +61,8 @@ func (server *Server) HDel(conn *redis.Conn, key string, fields []string) (*redi
 	if err != nil {
 		return nil, err
 	}
+	db.Lock()
+	defer db.Unlock()
 	record, ok := db.GetRecord(key)
 	if !ok {
 		return redis.NewIntegerMessage(0), nil
@@ -83,6 +85,8 @@ func (server *Server) HSet(conn *redis.Conn, key string, field string, val strin
 	if err != nil {
 		return nil, err
 	}
+	db.Lock()
+	defer db.Unlock()
 
 	var hash Hash
 	record, hasRecord := db.GetRecord(key)
@@ -114,6 +118,8 @@ func (server *Server) HGet(conn *redis.Conn, key string, field string) (*redis.M
 	if err != nil {
 		return nil, err
 	}
+	db.Lock()
+	defer db.Unlock()
 	record, ok := db.GetRecord(key)
 	if !ok {
 		return redis.NewNilMessage(), nil
@@ -136,6 +142,8 @@ func (server *Server) HGetAll(conn *redis.Conn, key string) (*redis.Message, err
 	if err != nil {
 		return nil, err
 	}
+	db.Lock()
+	defer db.Unlock()
 	record, ok := db.GetRecord(key)
 	if !ok {
 		return arrayMsg, nil
